@@ -259,6 +259,7 @@ func newHandshakeConfig(
 		LocalSRTPProtectionProfiles:   config.SRTPProtectionProfiles,
 		LocalSRTPMasterKeyIdentifier:  config.SRTPMasterKeyIdentifier,
 		ServerName:                    configValues.serverName,
+		VerifyServerName:              config.ServerName,
 		SupportedProtocols:            config.SupportedProtocols,
 		ClientAuth:                    dtlsconfig.ClientAuthType(config.ClientAuth),
 		LocalCertificates:             config.Certificates,
